@@ -77,7 +77,11 @@ def ensure_makefile() -> None:
 
 def regen() -> t.Dict[str, dict]:
     """Regenerate coq/gen/*.v from /repo's current source."""
-    return kernels.generate(kernel_table.KERNELS)
+    from . import consts
+
+    st = kernels.generate(kernel_table.KERNELS)
+    st.update(consts.generate())
+    return st
 
 
 ERR_RE = re.compile(r'File "\./([^"]+)", line (\d+), characters (\d+)-(\d+):\s*\n(Error:.*?)(?=\n(?:make|File|\S+ \(real)|\Z)', re.S)
